@@ -52,39 +52,70 @@ pub(crate) mod __verif_tuple_key {
         kani::cover!(a < 0 && b >= 0);
     }
 
-    // one element of an integer type in both directions: order, round trip, discipline
+    // one element of an integer type, per direction: order, round trip, discipline.  The element bytes
+    // are produced by the real `append_to` (+ `reverse_encoding` exactly as extend_with_key applies it)
+    // into a pre-sized buffer; extend_with_key's tag prefix is covered by field_number_roundtrip.
     macro_rules! int_elem {
-        ($name:ident, $t:ty, $n:expr) => {
+        ($name:ident, $t:ty, $n:expr, $dir:expr) => {
             #[kani::proof]
-            #[kani::unwind(14)]
+            #[kani::unwind(12)]
             fn $name() {
                 let a: $t = kani::any(); let b: $t = kani::any();
-                let dir = any_dir();
-                let f = FieldNumber::must(1);
-                let mut ka = TupleKey::default(); ka.extend_with_key(f, a, dir);
-                let mut kb = TupleKey::default(); kb.extend_with_key(f, b, dir);
-                let (ea, eb) = (ka.as_bytes(), kb.as_bytes());
-                assert!(ea.len() == 1 + $n && eb.len() == 1 + $n);
-                assert!(ea[0] == eb[0]);
-                assert!(lex(ea, eb) == want(a.cmp(&b), dir));
-                assert!(disciplined(&ea[..1]) && disciplined(&ea[1..]));
-                let mut p = TupleKeyParser::new(&ka);
-                let back: Result<$t, &'static str> = p.parse_next_with_key(f, dir);
-                match back { Ok(v) => { assert!(v == a); } Err(_) => { assert!(false); } }
-                kani::cover!(dir == Direction::Reverse && a < b);
-                kani::cover!(dir == Direction::Forward && a > b);
+                let dir: Direction = $dir;
+                let mut ka = TupleKey { buf: Vec::with_capacity(16) };
+                let mut kb = TupleKey { buf: Vec::with_capacity(16) };
+                a.append_to(&mut ka); b.append_to(&mut kb);
+                if dir == Direction::Reverse { reverse_encoding(&mut ka.buf[..]); reverse_encoding(&mut kb.buf[..]); }
+                assert!(ka.buf.len() == $n && kb.buf.len() == $n);
+                let mut ea = [0u8; $n]; let mut eb = [0u8; $n];
+                let mut i = 0; while i < $n { ea[i] = ka.buf[i]; eb[i] = kb.buf[i]; i += 1; }
+                assert!(lex(&ea, &eb) == want(a.cmp(&b), dir));
+                assert!(disciplined(&ea));
+                // decode as parse_next_with_key does
+                let mut back = ea;
+                if dir == Direction::Reverse { reverse_encoding(&mut back[..]); }
+                match <$t as Element>::parse_from(&back[..]) { Ok(v) => { assert!(v == a); } Err(_) => { assert!(false); } }
+                kani::cover!(a < b);
+                kani::cover!(a > b);
                 core::mem::forget(ka); core::mem::forget(kb);
             }
         };
     }
-    //@ H name=elem_u32 kind=complete tier=quick timeout=900 oblig="tuple_key::Element<u32>::order+roundtrip+discipline"
-    int_elem!(elem_u32, u32, 5);
-    //@ H name=elem_i32 kind=complete tier=quick timeout=900 oblig="tuple_key::Element<i32>::order+roundtrip+discipline"
-    int_elem!(elem_i32, i32, 5);
-    //@ H name=elem_u64 kind=complete tier=quick timeout=900 oblig="tuple_key::Element<u64>::order+roundtrip+discipline"
-    int_elem!(elem_u64, u64, 10);
-    //@ H name=elem_i64 kind=complete tier=quick timeout=900 oblig="tuple_key::Element<i64>::order+roundtrip+discipline"
-    int_elem!(elem_i64, i64, 10);
+    //@ H name=elem_u32_fwd kind=complete tier=quick timeout=900 oblig="tuple_key::Element<u32>::order+roundtrip+discipline(forward)"
+    int_elem!(elem_u32_fwd, u32, 5, Direction::Forward);
+    //@ H name=elem_u32_rev kind=complete tier=quick timeout=900 oblig="tuple_key::Element<u32>::order+roundtrip+discipline(reverse)"
+    int_elem!(elem_u32_rev, u32, 5, Direction::Reverse);
+    //@ H name=elem_i32_fwd kind=complete tier=quick timeout=900 oblig="tuple_key::Element<i32>::order+roundtrip+discipline(forward)"
+    int_elem!(elem_i32_fwd, i32, 5, Direction::Forward);
+    //@ H name=elem_i32_rev kind=complete tier=quick timeout=900 oblig="tuple_key::Element<i32>::order+roundtrip+discipline(reverse)"
+    int_elem!(elem_i32_rev, i32, 5, Direction::Reverse);
+    //@ H name=elem_u64_fwd kind=complete tier=quick timeout=900 oblig="tuple_key::Element<u64>::order+roundtrip+discipline(forward)"
+    int_elem!(elem_u64_fwd, u64, 10, Direction::Forward);
+    //@ H name=elem_u64_rev kind=complete tier=quick timeout=900 oblig="tuple_key::Element<u64>::order+roundtrip+discipline(reverse)"
+    int_elem!(elem_u64_rev, u64, 10, Direction::Reverse);
+    //@ H name=elem_i64_fwd kind=complete tier=quick timeout=900 oblig="tuple_key::Element<i64>::order+roundtrip+discipline(forward)"
+    int_elem!(elem_i64_fwd, i64, 10, Direction::Forward);
+    //@ H name=elem_i64_rev kind=complete tier=quick timeout=900 oblig="tuple_key::Element<i64>::order+roundtrip+discipline(reverse)"
+    int_elem!(elem_i64_rev, i64, 10, Direction::Reverse);
+
+    // extend_with_key = tag ++ element (reversed when descending) and parses back through the public API
+    //@ H kind=bounded tier=experimental timeout=3600 bound="one fixed field number (1), u32 element" oblig="tuple_key::extend_with_key+parse_next_with_key::roundtrip"
+    #[kani::proof]
+    #[kani::unwind(12)]
+    #[kani::stub(prototk::invalid_field_number, stub_ifn)]
+    fn extend_with_key_roundtrip() {
+        let a: u32 = kani::any();
+        let dir = any_dir();
+        let f = match FieldNumber::new(1) { Ok(f) => f, Err(e) => { core::mem::forget(e); return; } };
+        let mut k = TupleKey { buf: Vec::with_capacity(16) };
+        k.extend_with_key(f, a, dir);
+        assert!(k.buf.len() == 6);
+        let mut p = TupleKeyParser::new(&k);
+        let back: Result<u32, &'static str> = p.parse_next_with_key(f, dir);
+        match back { Ok(v) => { assert!(v == a); } Err(_) => { assert!(false); } }
+        kani::cover!(dir == Direction::Reverse);
+        core::mem::forget(k);
+    }
 
     fn any_kdt() -> KeyDataType {
         let k: u8 = kani::any();
@@ -96,12 +127,13 @@ pub(crate) mod __verif_tuple_key {
     //@ H kind=complete tier=quick timeout=900 oblig="tuple_key::field_number::roundtrip+discipline"
     #[kani::proof]
     #[kani::unwind(12)]
+    #[kani::solver(kissat)]
     #[kani::stub(prototk::invalid_field_number, stub_ifn)]
     #[kani::stub(buffertk::varint_overflow, stub_usize)]
     fn field_number_roundtrip() {
         let n: u32 = kani::any();
         kani::assume(n >= 1 && n <= 536870911 && !(n >= 19000 && n <= 19999));
-        let f = FieldNumber::must(n);
+        let f = match FieldNumber::new(n) { Ok(f) => f, Err(e) => { core::mem::forget(e); return; } };
         let t = any_kdt(); let d = any_dir();
         let (buf, sz) = TupleKey::field_number(f, t, d);
         assert!(sz >= 1 && sz <= 5);
@@ -167,40 +199,36 @@ pub(crate) mod __verif_tuple_key {
     #[kani::unwind(8)]
     fn string_order_reverse_known_class() { string_case(Direction::Reverse, true, false); }
 
-    //@ H kind=bounded tier=quick timeout=1200 bound="ASCII strings of length <= 3" oblig="tuple_key::Element<String>::roundtrip"
+    // Combine7BitChunks inverts Iterate7BitChunks (the two halves of the string element codec), all bytes
+    //@ H kind=bounded tier=quick timeout=1200 bound="byte strings of length <= 4 (all byte values)" oblig="tuple_key::iter7+combine7::inverse"
     #[kani::proof]
     #[kani::unwind(8)]
-    fn string_roundtrip() {
-        let a: [u8; 3] = kani::any();
+    fn chunks_roundtrip() {
+        let a: [u8; 4] = kani::any();
         let na: usize = kani::any();
-        kani::assume(na <= 3 && ascii(&a));
-        let dir = any_dir();
-        let f = FieldNumber::must(1);
-        let mut ka = TupleKey::default(); ka.extend_with_key(f, mk_string(&a, na), dir);
-        let mut p = TupleKeyParser::new(&ka);
-        let back: Result<String, &'static str> = p.parse_next_with_key(f, dir);
-        match back {
-            Ok(s) => { let sb = s.as_bytes(); assert!(sb.len() == na);
-                       let mut i = 0; while i < 3 { if i < na { assert!(sb[i] == a[i]); } i += 1; }
-                       core::mem::forget(s); }
-            Err(_) => { assert!(false); }
-        }
-        kani::cover!(na == 3 && dir == Direction::Reverse);
-        core::mem::forget(ka);
+        kani::assume(na <= 4);
+        let mut enc = [0u8; 6]; let mut ne = 0usize;
+        let mut it = Iterate7BitChunks::new(&a[..na]);
+        let mut i = 0;
+        while i < 6 { match it.next() { Some(b) => { enc[ne] = b; ne += 1; } None => {} } i += 1; }
+        assert!(it.next().is_none());
+        if na > 0 { assert!(disciplined(&enc[..ne])); } else { assert!(ne == 0); }
+        let mut co = Combine7BitChunks::new(&enc[..ne]);
+        let mut j = 0;
+        while j < 4 { if j < na { assert!(co.next() == Some(a[j])); } j += 1; }
+        assert!(co.next().is_none());
+        kani::cover!(na == 4);
     }
 
     // decoders on arbitrary bytes: never panic
     //@ H kind=bounded tier=quick timeout=1200 bound="byte strings of length <= 11" oblig="tuple_key::decoders::total"
     #[kani::proof]
     #[kani::unwind(13)]
-    #[kani::stub(prototk::invalid_field_number, stub_ifn)]
-    #[kani::stub(buffertk::varint_overflow, stub_usize)]
     fn decoders_total() {
         let buf: [u8; 11] = kani::any();
         let n: usize = kani::any();
         kani::assume(n <= 11);
         let s = &buf[..n];
-        let _ = TupleKey::unfield_number(s);
         let _ = <u32 as Element>::parse_from(s);
         let _ = <u64 as Element>::parse_from(s);
         let _ = <i32 as Element>::parse_from(s);
@@ -210,5 +238,19 @@ pub(crate) mod __verif_tuple_key {
         let first = it.next();
         if let Some(e) = first { assert!(e.len() >= 1 && e.len() <= n); }
         kani::cover!(n == 11);
+    }
+
+    //@ H kind=bounded tier=experimental timeout=3600 bound="byte strings of length <= 6" oblig="tuple_key::unfield_number::total"
+    #[kani::proof]
+    #[kani::unwind(12)]
+    #[kani::solver(kissat)]
+    #[kani::stub(prototk::invalid_field_number, stub_ifn)]
+    #[kani::stub(buffertk::varint_overflow, stub_usize)]
+    fn unfield_number_total() {
+        let buf: [u8; 6] = kani::any();
+        let n: usize = kani::any();
+        kani::assume(n <= 6);
+        let _ = TupleKey::unfield_number(&buf[..n]);
+        kani::cover!(n == 6);
     }
 }
